@@ -20,7 +20,7 @@
  *   crash/hang by the supervisor of vdrv.h (ASan/bounds in the asan variant)
  *
  * Options (--opt k=v)
- *   docs=samples|crafted|tokR|tokC   document family
+ *   docs=samples|crafted|tokR|tokC|datelists   document family (datelists: see enum_datelists(); maxlines=2|3 kinds=RXB)
  *   N=<n>            tok*: every string of 0..n tokens (minN=<m> to start at m)
  *   meth=0|1         tokC: wrapper without / with METHOD:CANCEL
  *   parts=c0,c1,c2,ones,reg   partition families to run
@@ -95,6 +95,10 @@ struct obs {
 static struct doc D;
 static struct obs REF, OA, OB, OE;
 static const char *emit_path;
+/* family datelists: dump every occurrence of a task, not only the first five */
+#define OCCMAX		4000
+static int occ_all;
+static int last_nocc;
 
 
 /* dumping, hand-rolled because this is the hot path */
@@ -253,7 +257,8 @@ dump_ins(struct obs *o, echs_instruc_t ins, bool last)
 		if (t->strm == NULL) {
 			ob_c(o, '~');
 		} else {
-			for (int k = 0; k < 5; k++) {
+			int k;
+			for (k = 0; k < 5; k++) {
 				echs_event_t e = echs_evstrm_next(t->strm);
 				if (echs_nul_event_p(e)) {
 					ob_s(o, "end");
@@ -266,6 +271,20 @@ dump_ins(struct obs *o, echs_instruc_t ins, bool last)
 				ob_hex(o, e.sts);
 				ob_c(o, ',');
 				(void)echs_evstrm_pop(t->strm);
+			}
+			if (occ_all) {
+				/* family datelists: every occurrence counts, the ones behind the fifth as number and digest */
+				uint64_t h = 0;
+				int n = k;
+				for (; k == 5 && n < OCCMAX; n++) {
+					echs_event_t e = echs_evstrm_pop(t->strm);
+					if (echs_nul_event_p(e)) {
+						break;
+					}
+					h = ((h << 7U) | (h >> 57U)) ^ e.from.u ^ (uint64_t)e.dur.d ^ ((uint64_t)e.sts << 50U);
+				}
+				ob_key(o, "nocc"), ob_hex(o, (uint64_t)n), ob_c(o, ':'), ob_hex(o, h);
+				last_nocc = n;
 			}
 		}
 		free_echs_task(t);
@@ -1441,6 +1460,142 @@ enum_docs(bool samples)
 	}
 }
 
+
+/* family datelists: one VEVENT whose recurrence dates and exception dates arrive in 2..3 RDATE (EXDATE) lines of
+ * DATE values, with every combination of line sizes from {1, 40, 63, 64, 65, 100, 113} (113 is what fits into a
+ * line of 1022 bytes; the sizes straddle the 64 slots a date list starts with and its doublings).  Dates are the
+ * days 1..28 of consecutive months from 2031-01 on; each further line repeats the last date of the line before.
+ *   kind R  RDATE lines only (DTSTART is the first date)
+ *   kind X  one RDATE line of 113 dates, EXDATE lines that begin with the 51st of them
+ *   kind B  RDATE lines and EXDATE lines of the same sizes, alternating, the exceptions begin with the 31st date
+ * Partitions: whole, all-ones, regular sizes, one cut within 8 bytes of every line end (c1max=0 in the propdef).
+ * Besides the clauses of every family (with EVERY occurrence in the dump, see dump_ins()):
+ *   datelist-count   the uncut run yields one task whose number of occurrences is the number of distinct dates
+ *                    listed and not excepted */
+static const int dl_sizes[] = {1, 40, 63, 64, 65, 100, 113};
+#define NDLSZ	((int)(sizeof(dl_sizes) / sizeof(*dl_sizes)))
+
+static void
+dl_date(char *buf, int i)
+{
+	snprintf(buf, 16, "%04d%02d%02d", 2031 + i / 336, i / 28 % 12 + 1, i % 28 + 1);
+}
+
+/* one line of N dates from index FROM on; 112 and more only fit without the VALUE parameter */
+static void
+dl_line(struct doc *d, const char *prop, int from, int n)
+{
+	char b[16];
+
+	doc_puts(d, prop);
+	doc_puts(d, n <= 111 ? ";VALUE=DATE:" : ":");
+	for (int i = 0; i < n; i++) {
+		dl_date(b, from + i);
+		if (i) {
+			PUTLIT(d, ",");
+		}
+		doc_puts(d, b);
+	}
+	PUTLIT(d, "\n");
+}
+
+static void
+enum_datelists(void)
+{
+	static const char knm[] = "RXB";
+	const int maxl = (int)vd_opt_l("maxlines", 3);
+	const char *kinds = vd_opt("kinds", "RXB");
+
+	occ_all = 1;
+	for (int nl = 2; nl <= maxl && nl <= 3; nl++) {
+		int ncomb = 1;
+
+		for (int i = 0; i < nl; i++) {
+			ncomb *= NDLSZ;
+		}
+		for (int kd = 0; kd < 3; kd++) {
+			if (strchr(kinds, knm[kd]) == NULL) {
+				continue;
+			}
+			for (int c = 0; c < ncomb; c++) {
+				int sz[3], tot = 0, expect, at;
+				char tmp[64];
+
+				if (vd_stop()) {
+					return;
+				}
+				for (int i = 0, q = c; i < nl; i++, q /= NDLSZ) {
+					/* the first line varies slowest */
+					sz[nl - 1 - i] = dl_sizes[q % NDLSZ];
+				}
+				for (int i = 0; i < nl; i++) {
+					tot += sz[i];
+				}
+				/* distinct dates of the lines together */
+				tot -= nl - 1;
+				snprintf(tmp, sizeof(tmp), "datelists/%c", knm[kd]);
+				vd_shape("%s/load", tmp);
+				if (!vd_next()) {
+					continue;
+				}
+				D.n = 0, D.fam = "datelists";
+				doc_puts(&D, "BEGIN:VCALENDAR\nVERSION:2.0\nBEGIN:VEVENT\nUID:datelists\nSUMMARY:true\nDTSTART;VALUE=DATE:20310101\n");
+				switch (kd) {
+				case 0:
+					at = 0;
+					for (int i = 0; i < nl; i++) {
+						dl_line(&D, "RDATE", at, sz[i]);
+						at += sz[i] - 1;
+					}
+					expect = tot;
+					break;
+				case 1:
+					dl_line(&D, "RDATE", 0, 113);
+					at = 50;
+					for (int i = 0; i < nl; i++) {
+						dl_line(&D, "EXDATE", at, sz[i]);
+						at += sz[i] - 1;
+					}
+					expect = 113 - ((50 + tot < 113 ? 50 + tot : 113) - 50);
+					break;
+				default:
+					at = 0;
+					for (int i = 0, xat = 30; i < nl; i++) {
+						dl_line(&D, "RDATE", at, sz[i]);
+						dl_line(&D, "EXDATE", xat, sz[i]);
+						at += sz[i] - 1;
+						xat += sz[i] - 1;
+					}
+					expect = tot <= 30 ? tot : 30;
+					break;
+				}
+				doc_puts(&D, "END:VEVENT\nEND:VCALENDAR\n");
+				snprintf(D.name, sizeof(D.name), "kind %c, %d lines of %d %d %d dates", knm[kd], nl, sz[0], sz[1], nl > 2 ? sz[2] : 0);
+				cur_slug = kd == 0 ? "rdate-lines" : kd == 1 ? "exdate-lines" : "rdate+exdate-lines";
+				vd_desc("%s (%zu bytes)", D.name, D.n);
+				last_nocc = -1;
+				do_doc_all(&D);
+				/* do_doc_all() has left REF as the uncut run */
+				if (REF.nins != 1 || strncmp(REF.s, "SCHE", 4)) {
+					char sig[VD_SIGLEN];
+					vd_sh->desc[desc_len] = '\0';
+					snprintf(sig, sizeof(sig), "datelist-count/%c/instructions", knm[kd]);
+					vd_viol(sig, "the uncut run yields %d instructions, expected one scheduled task", REF.nins);
+				} else {
+					const char *q = strstr(REF.s, "\037nocc=");
+					const long got = q ? strtol(q + 6, NULL, 16) : -1;
+					if (got != expect) {
+						char sig[VD_SIGLEN];
+						vd_sh->desc[desc_len] = '\0';
+						snprintf(sig, sizeof(sig), "datelist-count/%c/%s", knm[kd], got < expect ? "fewer" : "more");
+						vd_viol(sig, "the task has %ld occurrences, %d distinct dates are listed and not excepted", got, expect);
+					}
+				}
+			}
+		}
+	}
+}
+
 static void
 enumerate(void)
 {
@@ -1461,6 +1616,8 @@ enumerate(void)
 		enum_tok(tokR, NTOKR, "tokR", false);
 	} else if (!strcmp(docs, "tokC")) {
 		enum_tok(tokC, NTOKC, "tokC", true);
+	} else if (!strcmp(docs, "datelists")) {
+		enum_datelists();
 	} else {
 		fprintf(stderr, "c10: unknown docs=%s\n", docs);
 		_exit(3);
